@@ -1,0 +1,121 @@
+//go:build verif
+
+package ysgo
+
+// Contracts for the root package. Comment-only: read by the verifier in /verif/govc.
+// Shared specifications (values, world, Yarn semantics) live in /verif/spec/*.spec.
+//
+// ---- base_functions.go: numeric built-ins (C19), IEEE-754 semantics ---------------------------------
+//
+//@ pred small(f float64) { !isNaN(f) && !isInf(f) && fabs(f) < 4503599627370496.0 }
+//
+//@ func floor(f float64) (res float64)
+//@   float ieee
+//@   requires small(f)
+//@   ensures "exact": res == rtn(f)
+//@   ensures "floor": isIntegral(res) && res <= f && f < fadd(res, 1.0)
+//@   ensures "res+1-is-exact": feq(fadd_rtn(res, 1.0), fadd_rtp(res, 1.0))     // so the IEEE clause is the clause over the reals
+//
+//@ func ceil(f float64) (res float64)
+//@   float ieee
+//@   requires small(f)
+//@   ensures "exact": res == rtp(f)
+//@   ensures "ceil": isIntegral(res) && fsub(res, 1.0) < f && f <= res
+//@   ensures "res-1-is-exact": feq(fsub_rtn(res, 1.0), fsub_rtp(res, 1.0))
+//
+//@ func inc(f float64) (res float64)
+//@   float ieee
+//@   requires small(f)
+//@   ensures "least-integer-greater": isIntegral(res) && res > f &&
+//@           (forall k float64 :: isIntegral(k) && k > f ==> res <= k)
+//
+//@ func dec(f float64) (res float64)
+//@   float ieee
+//@   requires small(f)
+//@   ensures "greatest-integer-less": isIntegral(res) && res < f &&
+//@           (forall k float64 :: isIntegral(k) && k < f ==> k <= res)
+//
+//@ func integer(f float64) (res float64)
+//@   float ieee
+//@   requires small(f)
+//@   ensures "exact": res == rtz(f)
+//@   ensures "toward-zero": isIntegral(res) && fabs(res) <= fabs(f) && fsub(fabs(f), fabs(res)) < 1.0 && (isNeg(res) == isNeg(f))
+//@   ensures "difference-is-exact": feq(fsub_rtn(fabs(f), fabs(res)), fsub_rtp(fabs(f), fabs(res)))
+//
+//@ func decimal(f float64) (res float64)
+//@   float ieee
+//@   requires small(f)
+//@   ensures "integer-plus-decimal": feq(fadd(rtz(f), res), f)
+//@   ensures "sum-is-exact": feq(fadd_rtn(rtz(f), res), fadd_rtp(rtz(f), res))
+//
+//@ func round(f float64) (res float64)
+//@   float ieee
+//@   requires small(f)
+//@   ensures "exact": res == rna(f)
+//@   ensures "nearest": isIntegral(res) && fabs(fsub(res, f)) <= 0.5
+//@   ensures "difference-is-exact": feq(fsub_rtn(res, f), fsub_rtp(res, f))
+//
+// ---- evaluator.go (C02): the evaluator equals the operator table Eval of /verif/spec/yarn.spec ---------
+//
+//@ func xor(a bool, b bool) (res bool)
+//@   ensures "xor": res == (a != b)
+//
+//@ func evaluateExpression(e *tree.Expression, retriever variable.Retriever, caller functionCaller) (v *variable.Value, err error)
+//@   requires wfExpr(e) && dyntype(retriever) != 0 && dyntype(caller) != 0
+//@   modifies World
+//@   ensures "table":               (err == nil) == Eval(e, old(World)).ok && (err == nil ==> absval(v) == Eval(e, old(World)).val && World == Eval(e, old(World)).w)
+//@   ensures "error-never-a-value": (err != nil ==> v == nil) && (err == nil ==> wfVal(v))
+//@   ensures "no-writes":           nwrites(World) == nwrites(old(World)) && ndispatch(World) == ndispatch(old(World))
+//
+//@ func evaluateBinaryOperation(operator int, leftOperand *tree.Expression, rightOperand *tree.Expression, retriever variable.Retriever, caller functionCaller) (v *variable.Value, err error)
+//@   requires wfExpr(leftOperand) && wfExpr(rightOperand) && dyntype(retriever) != 0 && dyntype(caller) != 0
+//@   modifies World
+//@   ensures "table":               (err == nil) == EvalBin(operator, leftOperand, rightOperand, old(World)).ok &&
+//@                                  (err == nil ==> absval(v) == EvalBin(operator, leftOperand, rightOperand, old(World)).val && World == EvalBin(operator, leftOperand, rightOperand, old(World)).w)
+//@   ensures "error-never-a-value": (err != nil ==> v == nil) && (err == nil ==> wfVal(v))
+//@   ensures "no-writes":           nwrites(World) == nwrites(old(World)) && ndispatch(World) == ndispatch(old(World))
+//
+//@ func evaluateFunctionCall(call *tree.FunctionCall, retriever variable.Retriever, caller functionCaller) (v *variable.Value, err error)
+//@   requires wfCall(call) && dyntype(retriever) != 0 && dyntype(caller) != 0
+//@   modifies World
+//@   ensures "args-left-to-right-once": (err == nil) == EvalCall(call, old(World)).ok &&
+//@                                  (err == nil ==> absval(v) == EvalCall(call, old(World)).val && World == EvalCall(call, old(World)).w)
+//@   ensures "error-never-a-value": (err != nil ==> v == nil) && (err == nil ==> wfVal(v))
+//@   ensures "no-writes":           nwrites(World) == nwrites(old(World)) && ndispatch(World) == ndispatch(old(World))
+//@   ghostlocal gvals seq[Val]
+//@   ghost after call append#0 {
+//@       gvals = snoc(gvals, absval(evaluatedArg))
+//@       assert "len": len(callres) == len(gvals)
+//@       assert "last": absval(callres[len(callres) - 1]) == gvals[len(gvals) - 1]
+//@       assert "prefix": forall k int :: {callres[k]} 0 <= k && k < len(callres) - 1 ==> absval(callres[k]) == gvals[k]
+//@       assert "eq": gvals == absvals(callres)
+//@   }
+//@   loop 0: invariant "args": 0 <= rangeindex + 1 && rangeindex + 1 <= len(call.Arguments) && len(evaluatedArgs) == rangeindex + 1 &&
+//@                     fresh(evaluatedArgs) && gvals == absvals(evaluatedArgs) &&
+//@                     (forall k int :: {gvals[k]} 0 <= k && k < len(gvals) ==> gvals[k] != VNone) &&
+//@                     EvalFrom(call, 0, seq[Val]{}, old(World)) == EvalFrom(call, rangeindex + 1, gvals, World)
+//@   loop 0: invariant "no-writes": nwrites(World) == nwrites(old(World)) && ndispatch(World) == ndispatch(old(World))
+//
+// ---- runner.go: set / declare (C03) ----------------------------------------------------------------------
+//
+//@ pred (dr *DialogueRunner) hostOK() {
+//@     dr != nil && dyntype(dr.variableStorer) != 0 && dr.functionStorer != nil && dr.commandStorer != nil }
+//
+//@ func (dr *DialogueRunner) executeSetStatement(statement *tree.SetStatement) (err error)
+//@   requires dr.hostOK() && statement != nil && wfExpr(statement.Expression)
+//@   modifies World
+//@   ensures "assign-table": (err == nil) == (Eval(statement.Expression, old(World)).ok &&
+//@               Assign(statement.InPlaceOperator, store(Eval(statement.Expression, old(World)).w, statement.VariableID), Eval(statement.Expression, old(World)).val).aok) &&
+//@           (err == nil ==> World == setvar(Eval(statement.Expression, old(World)).w, statement.VariableID,
+//@               Assign(statement.InPlaceOperator, store(Eval(statement.Expression, old(World)).w, statement.VariableID), Eval(statement.Expression, old(World)).val).aval))
+//@   ensures "failed-statement-writes-nothing": err != nil ==> nwrites(World) == nwrites(old(World))
+//@   ensures "no-dispatch": ndispatch(World) == ndispatch(old(World))
+//
+//@ func (dr *DialogueRunner) executeDeclareStatement(statement *tree.DeclareStatement) (err error)
+//@   requires dr.hostOK() && statement != nil && wfExpr(statement.Value)
+//@   modifies World
+//@   ensures "assign-table": (err == nil) == (Eval(statement.Value, old(World)).ok &&
+//@               Assign(tree.AssignmentInPlaceOperator, store(Eval(statement.Value, old(World)).w, statement.VariableID), Eval(statement.Value, old(World)).val).aok) &&
+//@           (err == nil ==> World == setvar(Eval(statement.Value, old(World)).w, statement.VariableID, Eval(statement.Value, old(World)).val))
+//@   ensures "failed-statement-writes-nothing": err != nil ==> nwrites(World) == nwrites(old(World))
+//@   ensures "no-dispatch": ndispatch(World) == ndispatch(old(World))
